@@ -952,6 +952,16 @@ def _b_sorted(interp, args, kwargs, frame):
   h = interp.policy.handlers.get(('sorted',))
   if h is not None:
     return h(interp, args, kwargs, frame)
+  if items is not None:
+    keyf = kwargs.get('key')
+    rev = kwargs.get('reverse', False)
+    keys = [interp.call(keyf, [x], {}, frame) if keyf is not None else x for x in items]
+    if all(I._deep_concrete(k) for k in keys) and is_concrete(rev):
+      try:
+        order = sorted(range(len(items)), key=lambda i: keys[i], reverse=bool(rev))
+      except Exception as ex:  # pylint: disable=broad-except
+        raise pyraise(type(ex), *ex.args)
+      return [items[i] for i in order]
   raise unsupported('sorted of symbolic items')
 
 
